@@ -138,6 +138,7 @@ def step (s : St) (w : List String) : St × String :=
     let (q, p) := qStep false s.q .done
     ({ s with q := q }, if p then "panic " ++ showQ q else showQ q)
   | ["qcrash"] => (s, showCrash s.q)
+  | ["steps"] => (s, String.intercalate " " commitSteps)
   | ["ctxproto"] =>
     -- the context.data protocol the model is about: `ctxCrash` never changes `main` except by the rename,
     -- and `ctxLoad` never looks at the temp file
